@@ -203,3 +203,20 @@ def operation_preserves_invariant(op, n):
         check_invariant(nil, "original-after-copy-was-changed")
         H.check("C16:original-unchanged-by-changes-to-the-copy",
                 [id(x) for x in list.__iter__(nil)] == [id(x) for x in model])
+
+
+# two item lists are equal iff they hold equal items in the same order (value inheritance compares objects that contain
+# such lists to decide whether same-named objects of two parents clash)
+@harness(props=["C16", "C09"], strength="B", family=lambda t, s: [{"n": n} for n in (1, 2)],
+         bound="lists of 1..2 concrete items", functions=[NamedItemList.__init__, NamedItemList.__eq__],
+         covers=["done"], crosscheck=False)
+def equality_is_item_equality(n):
+    """NamedItemList equality follows the items, not just their names"""
+    a = NamedItemList([Item(f"i{k}", 10 + k) for k in range(n)])
+    same = NamedItemList([Item(f"i{k}", 10 + k) for k in range(n)])
+    other = NamedItemList([Item(f"i{k}", 10 + k + (1 if k == n - 1 else 0)) for k in range(n)])
+    shorter = NamedItemList([Item(f"i{k}", 10 + k) for k in range(n - 1)])
+    H.cover("done")
+    H.check("C09,C16:lists-of-equal-items-are-equal", H.And(a == same, not (a != same)))
+    H.check("C09,C16:lists-with-a-differing-item-of-the-same-name-are-unequal", H.And(not (a == other), a != other))
+    H.check("C09,C16:lists-of-different-length-are-unequal", not (a == shorter))
